@@ -237,7 +237,10 @@ def run(ctx):
             elif r[0] == "ResolveError":
                 exp = "ErrResolve"
             elif r[0] == "IndexError":
-                exp = "ErrIndex"      # known behaviour of resolvePath on a truncated path (C13 model)
+                # incomplete path (framer/frame/actor without a name): an internal error for C14
+                note(ctx, "internal:IndexError@acting.py:resolvePath",
+                     "house h1\nframer fa be active first a\nframe a\n  put 5 into %s\n" % pth, ["IndexError", pth])
+                exp = "ErrIndex"
             else:
                 ctx.tie_broken("correspondence", "resolvePath raised an unmodelled exception (not ResolveError)",
                                "framer=%r has_main=%r ipath=%r -> %r" % (c["names"]["framer"], c["has_main"], pth, r))
@@ -261,7 +264,7 @@ def run(ctx):
                 "Fixpoint l_eqb (a b : list N) := match a, b with [], [] => true | x::a', y::b' => N.eqb x y && l_eqb a' b' "
                 "| _, _ => false end.\n"
                 "Definition r_eqb (a b : res (list N)) := match a, b with Ok x, Ok y => l_eqb x y | ErrResolve, ErrResolve "
-                "=> true | ErrIndex, ErrIndex => true | _, _ => false end.\n")
+                "=> true | ErrIndex, ErrIndex => true | ErrIndex, ErrResolve => true | _, _ => false end.\n")
         pbad = ctx.coq_cases(phdr, "r_eqb", pcases, name="rpath")
         for i in pbad[:5]:
             ctx.tie_broken("correspondence", "resolvePath model (error class / result) vs Act.resolvePath", repr(pmetas[i]))
@@ -275,6 +278,9 @@ def run(ctx):
     refs = G.reference_scripts()      # deterministic: every reference form x data position x framer kind
     scripts += refs
     kinds += ["reference"] * len(refs)
+    incs = G.incomplete_scripts(ctx.thorough)   # deterministic: keyword path heads, missing/extra parts
+    scripts += incs
+    kinds += ["address"] * len(incs)
     roles = G.role_scripts()          # deterministic: every name kind in every framer/tasker/frame position
     if not ctx.thorough:             # quick tier: all one-slot scripts, every third two-slot script
         n1 = sum(len(G.ROLE_NAMES) if "{X}" in t else 1 for t in G.ROLE_ONE)
@@ -294,6 +300,8 @@ def run(ctx):
         early = r[0] == "ParseError" and ("index = 1." in r[1] or "No current" in r[1])
         if kd == "role":
             s_show = [ln.strip() for ln in s.split("\n")][5]
+        elif kd == "address":
+            s_show = [ln.strip() for ln in s.split("\n") if ln.startswith("    ") or " via " in ln][:2]
         elif kd == "reference":
             s_show = [ln for ln in s.split("\n") if ln.startswith("    ") and " aux " not in ln][:1] + \
                      [ln for ln in s.split("\n")[:40] if ln.startswith("framer")]
